@@ -1,11 +1,6 @@
 use std::io::{Cursor, Read, Seek, Write};
 use std::mem::swap;
-use std::time::SystemTime;
 // ---- trusted prelude: SystemTime, Cursor<Vec<u8>>, lock cell token (rule R4)
-#[verifier::external_type_specification]
-#[verifier::external_body]
-pub struct ExSystemTime(SystemTime);
-pub assume_specification [SystemTime::now] () -> SystemTime;
 
 /// Rule R4: the single `Arc<RwLock<MemoryFsImpl>>` cell becomes an explicit `st: &mut MemoryFsImpl` parameter;
 /// a clone of the Arc is this token.
